@@ -197,3 +197,145 @@ def returned_values(fn_node: ast.AST) -> List[ast.expr]:
         if isinstance(n, ast.Return) and n.value is not None:
             out.extend(alternatives(n.value, local))
     return out
+
+
+# ------------------------------------------------------- AST-level inlining
+class _SubstNames(ast.NodeTransformer):
+    def __init__(self, env: Dict[str, ast.expr]):
+        self.env = env
+
+    def visit_Name(self, n):
+        if n.id in self.env:
+            import copy
+            r = self.env[n.id]
+            if isinstance(n.ctx, ast.Load):
+                return copy.deepcopy(r)
+            if isinstance(r, ast.Name):
+                return ast.Name(id=r.id, ctx=n.ctx)
+        return n
+
+    def visit_Lambda(self, n):
+        return n
+
+
+def subst(e: ast.AST, env: Dict[str, ast.expr]) -> ast.AST:
+    """Copy of *e* with the (loaded) names of *env* replaced by their expressions."""
+    import copy
+    if not env:
+        return e
+    return ast.fix_missing_locations(_SubstNames(env).visit(copy.deepcopy(e)))
+
+
+def expand_locals(e: ast.expr, fn_node: ast.AST, rounds: int = 4) -> ast.expr:
+    """*e* with the locals that are bound exactly once replaced by their defining expressions."""
+    local = single_assignments(fn_node)
+    for _ in range(rounds):
+        if not any(isinstance(n, ast.Name) and n.id in local for n in ast.walk(e)):
+            break
+        e = subst(e, local)
+    return e
+
+
+def inlined_body(res, fn, depth: int = 0) -> List[ast.stmt]:
+    """The statements of *fn* with calls to helpers outside the pinned inventory expanded in place (``return h(a)``,
+    ``x = h(a)``, ``h(a)`` as a statement).  Only helpers whose body is straight-line code ending in at most one
+    return are expanded; their parameters are substituted by the argument expressions and their locals renamed.
+    Used by the rules that read a function's body as a sequence of statements."""
+    from .inventory import KNOWN_FUNCS
+    from .calls import arg_for
+    out: List[ast.stmt] = []
+
+    def helper(call):
+        if not isinstance(call, ast.Call) or depth > 3:
+            return None
+        try:
+            ct = res.resolve_call(call, fn)
+        except Exception:
+            return None
+        if ct.unresolved or ct.ctor is not None or ct.ext or len(ct.funcs) != 1:
+            return None
+        g = ct.funcs[0]
+        if g.is_lambda or g.qualname in KNOWN_FUNCS or g is fn:
+            return None
+        body = [s for s in inlined_body(res, g, depth + 1) if not (isinstance(s, ast.Expr) and isinstance(s.value, ast.Constant))]
+        rets = [n for s in body for n in walk_no_lambda(s) if isinstance(n, ast.Return)]
+        if len(rets) > 1 or (rets and rets[0] is not body[-1]):
+            return None
+        if any(isinstance(n, (ast.Yield, ast.YieldFrom, ast.Global, ast.Nonlocal)) for s in body for n in ast.walk(s)):
+            return None
+        env: Dict[str, ast.expr] = {}
+        bound_self = g.cls is not None and not g.is_static and g.params and g.params[0] in ("self", "cls")
+        for pn in g.params:
+            if bound_self and pn == g.params[0]:
+                if isinstance(call.func, ast.Attribute) and not (isinstance(call.func.value, ast.Name) and call.func.value.id == pn):
+                    env[pn] = call.func.value
+                continue
+            a = arg_for(call, g, pn)
+            if a is None:
+                a_ = g.node.args
+                pos = a_.posonlyargs + a_.args
+                names = [x.arg for x in pos]
+                k = names.index(pn) - (len(pos) - len(a_.defaults)) if pn in names else -1
+                a = a_.defaults[k] if k >= 0 else None
+            if a is None:
+                return None
+            env[pn] = a
+        locals_ = {n.id for s in body for n in ast.walk(s) if isinstance(n, ast.Name) and isinstance(n.ctx, ast.Store)} - set(env)
+        for ln in locals_:
+            env[ln] = ast.Name(id="%s__%s" % (ln, g.name.strip("_")), ctx=ast.Load())
+        return [subst(s, env) for s in body]
+
+    for st in fn.node.body:
+        call = None
+        if isinstance(st, (ast.Return, ast.Expr)) and isinstance(st.value, (ast.Call, ast.Await)):
+            call = st.value.value if isinstance(st.value, ast.Await) else st.value
+        elif isinstance(st, ast.Assign) and len(st.targets) == 1 and isinstance(st.value, (ast.Call, ast.Await)):
+            call = st.value.value if isinstance(st.value, ast.Await) else st.value
+        body = helper(call) if call is not None else None
+        if body is None:
+            out.append(st)
+            continue
+        last_ret = body[-1] if body and isinstance(body[-1], ast.Return) else None
+        pre = body[:-1] if last_ret is not None else body
+        out.extend(pre)
+        if isinstance(st, ast.Return):
+            out.append(ast.copy_location(ast.Return(value=last_ret.value if last_ret is not None else None), st))
+        elif isinstance(st, ast.Assign):
+            val = last_ret.value if last_ret is not None and last_ret.value is not None else ast.Constant(value=None)
+            out.append(ast.fix_missing_locations(ast.copy_location(ast.Assign(targets=st.targets, value=val), st)))
+        elif last_ret is not None and last_ret.value is not None:
+            out.append(ast.copy_location(ast.Expr(value=last_ret.value), st))
+    return out
+
+
+def calls_through_helpers(res, fn, pred, depth: int = 0) -> List[ast.Call]:
+    """Call nodes of *fn* satisfying *pred*, plus those inside helpers outside the pinned inventory that *fn* calls
+    (returned as copies with the helper's parameters replaced by the caller's argument expressions)."""
+    from .inventory import KNOWN_FUNCS
+    from .calls import arg_for
+    out: List[ast.Call] = []
+    for n in walk_no_lambda(fn.node):
+        if not isinstance(n, ast.Call):
+            continue
+        if pred(n):
+            out.append(n)
+            continue
+        if depth > 3:
+            continue
+        try:
+            ct = res.resolve_call(n, fn)
+        except Exception:
+            continue
+        if ct.unresolved or ct.ctor is not None or ct.ext or len(ct.funcs) != 1:
+            continue
+        g = ct.funcs[0]
+        if g.is_lambda or g.qualname in KNOWN_FUNCS or g is fn:
+            continue
+        env: Dict[str, ast.expr] = {}
+        for pn in g.params:
+            a = arg_for(n, g, pn)
+            if a is not None:
+                env[pn] = a
+        for c in calls_through_helpers(res, g, pred, depth + 1):
+            out.append(subst(c, env))
+    return out
